@@ -471,6 +471,17 @@ pub fn run(name: &str) -> Option<bool> {
             )
             .is_value()
         }
+        // C19: `construct!(construct!(tag, a), b).adjacent()` accepted `1 --tag 2`: the nested
+        // first member did not fail fast while the start of the block was looked for
+        "adjacent_group_nested_first_member_starts_at_word" => {
+            let g = Spec::Adj(vec![
+                Spec::Seq(vec![item(1, Names::long("tag"), Leaf::ReqFlag), pos(2, Ty::U32)]),
+                pos(3, Ty::U32),
+            ]);
+            let o = OptSpec::plain(Spec::Seq(vec![g]));
+            let p = build_options(&o);
+            crate::outcome::run(&p, &bytes(&["1", "--tag", "2"])).is_value()
+        }
         // C15: the static bash stub (`--bpaf-complete-style-bash`) rebuilds the command line as a
         // string and `eval`s it: `my-app $(cmd)<TAB>` runs `cmd`
         "bash_stub_evals_typed_words" => {
